@@ -230,7 +230,12 @@ def inprocess_tree(job):
             (f"input '../{base}/xml'", work, f"../{base}/xml", "./s"),
             ("output '.'", os.path.join(work, "s"), in_dir, "."),
             ("input 'xml/' from the parent's parent", os.path.dirname(work), f"{base}/xml/", f"{base}/s"),
+            # a checkout directory whose name holds characters that mean something to glob / fnmatch / regular expressions
+            ("input below a directory named 'eo [fork-v1] (x)*'", work, os.path.join(work, "eo [fork-v1] (x)*", "xml"), os.path.join(work, "s")),
         ]
+        odd = os.path.join(work, "eo [fork-v1] (x)*")
+        shutil.rmtree(odd, ignore_errors=True)
+        shutil.copytree(in_dir, os.path.join(odd, "xml"))
         for label, cwd, in_spelled, out_spelled in spellings:
             out = os.path.join(work, "s")
             shutil.rmtree(out, ignore_errors=True)
